@@ -552,7 +552,7 @@ PROPS = {
         "theorems": ["Dns.C03.accepted_layout", "Dns.C03.walks_faithful", "Dns.C03.no_opt_outside_additional", "Dns.C03.question_walk",
                      "Dns.C03.accessors", "Dns.C03.ip_accessor", "Dns.C03.data_accessor", "Dns.C03.layout_full",
                      "Dns.C03.edns_walk", "Dns.C03.current_section"],
-        "families": [{"name": "iter-boundary", "quick": 0, "thorough": 0, "fixed": True}, {"name": "iter", "quick": 3000, "thorough": 150000}],
+        "families": [{"name": "iter-boundary", "quick": 0, "thorough": 0, "fixed": True}, {"name": "iter", "quick": 3000, "thorough": 150000}, {"name": "iter-damaged", "quick": 3000, "thorough": 100000}],
         "oracle": oracle_c03,
         "nontrivial": nontrivial_accepted,
         "rule": "accepted packets from the structured stream (all record shapes, 4 layouts incl. chained pointers and pointers into rdata names, OPT absent/first/middle/last); "
